@@ -50,12 +50,20 @@ func init() {
 					js = append(js, JobSpec{Set: "proto", Fn: "HarnessC06Template", Params: p("kind", kind, "D", fmt.Sprint(D), "digits", "1", "smallalloc", "4", "tail", tail), Timeout: 20 * time.Minute})
 				}
 			}
+			// complete arrays around allocation boundaries
+			for _, n := range []int{0, 1, 2, 255, 256, 257, 1023, 1024, 1025, 2047, 2048, 2049, 4097, 5000} {
+				js = append(js, JobSpec{Set: "proto", Fn: "HarnessC06Large", Params: p("n", fmt.Sprint(n))})
+			}
+			if tier == "thorough" {
+				js = append(js, JobSpec{Set: "proto", Fn: "HarnessC06Large", Params: p("max", "1100"), Split: 8, Timeout: 40 * time.Minute})
+			}
 			return js
 		},
 		UnwindIsFinding: true,
 		RequiredCovers: map[string][]string{
 			"HarnessC06Bytes":    {"end", "error", "eos", "value", "array"},
 			"HarnessC06Template": {"end", "error"},
+			"HarnessC06Large":    {"end"},
 		},
 		Bounds: func(tier string) map[string]interface{} {
 			if tier == "thorough" {
